@@ -271,19 +271,12 @@ class MailboxData(MailboxDataInterface[Message]):
 
     async def move(self, uid: int, destination: MailboxData, *,
                    recent: bool = False) -> int | None:
-        async with self.messages_lock.write_lock():
-            try:
-                message = self._messages.pop(uid)
-            except KeyError:
-                return None
-            self._mod_sequences.expunge([uid])
-            self._updated.set()
-        async with destination.messages_lock.write_lock():
-            destination._max_uid = dest_uid = destination._max_uid + 1
-            new_msg = Message.copy(message, uid=dest_uid, recent=recent)
-            destination._messages[dest_uid] = new_msg
-            destination._mod_sequences.update([dest_uid])
-            destination._updated.set()
+        dest_uid = await self.copy(uid, destination, recent=recent)
+        if dest_uid is not None:
+            async with self.messages_lock.write_lock():
+                if self._messages.pop(uid, None) is not None:
+                    self._mod_sequences.expunge([uid])
+                    self._updated.set()
         return dest_uid
 
     async def get(self, uid: int, cached_msg: CachedMessage) -> Message:
